@@ -1,8 +1,7 @@
 #!/bin/sh
-# test every seed directory given that has no result.json yet, one at a time, after any running seedtest has finished
+# test every seed directory given that has no result.json yet, one at a time across all queues (flock)
 cd /verif
 for d in "$@"; do
-  while pgrep -f "tools/seedtest.py" > /dev/null; do sleep 15; done
   [ -f $d/result.json ] && continue
-  python3 tools/seedtest.py $d > $d/result.log 2>&1
+  flock /tmp/.verif-seedqueue.lock python3 tools/seedtest.py $d $SEED_CHECKS > $d/result.log 2>&1
 done
